@@ -455,6 +455,9 @@ class SpawnProcessRunner(ProcessRunner):
             results_map = {
                 dependency_task: self.results_map[dependency_task]
                 for dependency_task in get_direct_dependencies(task)
+                # A failed dependency has no result; reading it in the
+                # task raises a TaskError.
+                if dependency_task in self.results_map
             }
         return executor.submit(
             self._subprocess_func,
